@@ -70,6 +70,14 @@ def build_harness():
         lock_dst = os.path.join(HARNESS, "Cargo.lock")
         if not os.path.exists(lock_dst):
             shutil.copy(lock_src, lock_dst)
+        if REPO != "/repo":
+            # a copy of the machinery pointed at a scratch copy of the repository (VERIF_REPO; background runs, evaluation of stored
+            # changes while /repo is busy): the harness's path dependency follows.  Never the case for the registered commands.
+            ct = os.path.join(HARNESS, "Cargo.toml")
+            txt = open(ct).read()
+            new = re.sub(r'bitar = \{ path = "[^"]*"', 'bitar = { path = "%s/bitar"' % REPO, txt)
+            if new != txt:
+                open(ct, "w").write(new)
         t = time.time()
         rc, out = run(["cargo", "build", "--offline", "--quiet"], cwd=HARNESS, timeout=1800, check=False,
                       env={"CARGO_NET_OFFLINE": "true"})
